@@ -107,6 +107,18 @@ Theorem C06_fragment_vec_flags : forall sc c,
 Proof. exact frag_vec_flags. Qed.
 Print Assumptions C06_fragment_vec_flags.
 
+(* gSDE: reset_noise is called once before the loop and then exactly at the step indices (0-based, within the rollout) that are
+   multiples of sde_sample_freq; never inside the loop when sde_sample_freq <= 0 *)
+Theorem C06_sde_resampling_cadence : forall u f k x,
+  (In x (sde_calls u f k) <-> (u = true /\ x = 0) \/ (0 <= x < Z.of_nat k /\ sde_resample u f x = true)) /\
+  (sde_resample u f x = true <-> u = true /\ 0 < f /\ exists q, x = q * f).
+Proof. exact (fun u f k x => conj (sde_calls_spec u f k x) (sde_resample_iff u f x)). Qed.
+Print Assumptions C06_sde_resampling_cadence.
+
+Theorem C06_fragment_sde : forall u f j, onp_sde_guard u f j = sde_resample u f j /\ onp_sde_start_guard u = u.
+Proof. exact frag_sde_guard. Qed.
+Print Assumptions C06_fragment_sde.
+
 (* ---- non-vacuity ---- *)
 Definition ex_sc : script :=
   [mk_episode 10 0 [mk_sstep 11 4 false false 0; mk_sstep 12 (-8) false true 0];     (* truncated *)
@@ -122,3 +134,6 @@ Example C06_ex :
   [([(10, true, false, 1%Q, [0%Q; 1%Q]); (11, false, true, 48%Q, [1%Q; 1%Q])], 20, true);
    ([(20, true, false, 2%Q, [1%Q; 1%Q]); (30, true, false, 0%Q, [1%Q; 1%Q])], 10, true)].
 Proof. vm_compute. reflexivity. Qed.
+
+Example C06_ex_sde : sde_calls true 3 8 = [0; 0; 3; 6] /\ sde_calls true (-1) 8 = [0] /\ sde_calls false 2 8 = [].
+Proof. repeat split; reflexivity. Qed.
